@@ -290,6 +290,9 @@ def c09(ctx, rep):
     classifier.check(ctx, rep, "C09")
     from .checks_pipe import stream_open_rule, line_loop_rules
     stream_open_rule(ctx, rep, "C09")
+    from .checks_pipe import import_clauses as _imp9
+    from .checks_misc import c18 as _c18_9
+    _imp9(ctx, rep, "C09", "C18", _c18_9, ("C18.encode-", "C18.encoder-total", "C18.fixedc"), with_k3=False)  # "Juniper $9$ stays decryptable $9$": the replacement is what the encoder emits
     line_loop_rules(ctx, rep, "C09")  # "all text before and after it on the line is kept in place": what is written for a line is the stage chain's result for that very line
     _juniper_standard_tables(ctx, rep, "C09")
     secret_flow.check_anonymize_value(ctx, rep, "C09")
